@@ -652,6 +652,18 @@ func suiteTruthy(o *Out, thorough bool, seed int64) {
 		emitEval(o, fmt.Sprintf("(%s ? rec('t') : rec('f')), $a", c), 0, hosts, data, true)
 		emitEval(o, fmt.Sprintf("%s && ($a = 1), %s || ($b = 2), [$a, $b]", c, c), 0, hosts, data, true)
 	}
+	// "alone and nested": each selection operator nested to depths far beyond what a formula written by hand has
+	// (a recursion limit, a depth counter), still well inside 64 KiB of text
+	for _, d := range []int{255, 1000, 1001, 1200, 2000} {
+		rep := strings.Repeat
+		for _, t := range []string{rep("!!", d) + "'x'", rep("!!", d) + "''", rep("! ", d) + "0", rep("(", d) + "0 ? 'a' : 'b'" + rep(")", d), rep("(1 && ", d) + "'v'" + rep(")", d),
+			rep("('' || ", d) + "'v'" + rep(")", d), rep("(null ?? ", d) + "'v'" + rep(")", d), rep("(1 ? ", d) + "'v'" + rep(" : 'w')", d), rep("(0 ? 'w' : ", d) + "'v'" + rep(")", d),
+			rep("[", d) + "null ?? 1" + rep("][0]", d), rep("-", d) + "1 ? 'p' : 'n'", rep("typeof ", d%50+1) + "(1 && 2)"} {
+			if len(t) < 65000 {
+				emitEval(o, t, 0, hosts, data, true)
+			}
+		}
+	}
 	o.Notes = append(o.Notes, fmt.Sprintf("exhaustive: %d condition values x 6 branch values x the six selection operators, plus branches with assignments and recording host functions", len(truthConds)))
 	r := newRand(seed, "truthy")
 	n := 3000
@@ -1510,10 +1522,10 @@ func suiteNames(o *Out, thorough bool, seed int64) {
 	// by an outer field), unexported and missing names (errors), structs inside maps and arrays
 	{
 		sd := wmap("tg", structWire(11), "ra", structWire(12), "rb", structWire(13), "base", structWire(0), "acct", structWire(2), "pe", structWire(5), "pn", structWire(6), "sh", structWire(7), "deep", structWire(9),
-			"w", wmap("s", structWire(2), "n", "N"), "arr", "A2 "+structWire(0)+" "+structWire(5))
-		sroots := []string{"base", "acct", "pe", "pn", "sh", "deep", "w.s", "arr[0]", "arr[1]", "acct.SBase", "acct.Nested", "sh.SBase", "deep.SPtrEmb", "tg", "ra", "rb"}
+			"w", wmap("s", structWire(2), "n", "N"), "arr", "A2 "+structWire(0)+" "+structWire(5), "dp", structWire(14), "amb", structWire(17))
+		sroots := []string{"base", "acct", "pe", "pn", "sh", "deep", "w.s", "arr[0]", "arr[1]", "acct.SBase", "acct.Nested", "sh.SBase", "deep.SPtrEmb", "tg", "ra", "rb", "dp", "dp.SMeta", "dp.SRow", "amb", "amb.SAmbigA", "amb.SAmbigB"}
 		snames := []string{"DisplayName", "Other", "Lower", "lower", "balance", "Qty", "Part", "Note", "ID", "Owner", "hidden", "K", "S", "Name", "Balance", "Tags", "Meta", "Ptr", "When", "Nested", "Any", "Ratio", "Count", "Flag", "secret",
-			"SBase", "SInner", "SPtrEmb", "Level", "id", "Missing", "k"}
+			"SBase", "SInner", "SPtrEmb", "Level", "id", "Missing", "k", "Rev", "X", "Y", "OnlyA", "OnlyB", "SMeta", "SRow", "sAudit", "SAmbigA", "SAmbigB"}
 		for _, rt := range sroots {
 			for _, nm := range snames {
 				for _, sep := range []string{".", "!."} {
@@ -1619,6 +1631,29 @@ func suiteLiterals(o *Out, thorough bool, seed int64) {
 			}
 		}
 		o.Stat("long-literal-groups")
+	}
+	// literals whose TEXT is far longer than any formula of the other suites but whose value is small: leading zeros
+	// are insignificant and a fraction may start after any number of zeros (cheap for the library, which skips them;
+	// judged on the Go side - the model would have to read a million digits)
+	for _, n := range []int{65537, 1<<20 - 1, 1 << 20, 1<<20 + 1, 3000001} {
+		zeros := strings.Repeat("0", n)
+		for _, c := range []struct{ text, what string }{{zeros + "7 === 7", "leading zeros are insignificant"}, {zeros + "7 + 1 === 8", "leading zeros are insignificant"},
+			{"0." + zeros + "5 > 0", "a fraction after many zeros is that number"}, {"0." + zeros + "5 < 1e-" + fmt.Sprint(n), "a fraction after many zeros is that number"},
+			{zeros[:n/2] + "_" + zeros[n/2:] + "12 === 12", "separators and leading zeros"}} {
+			nt := fmt.Sprintf("NOP\tlongtext\t%d:%s", n, c.what)
+			o.Case(nt, "-", true)
+			src, err := formula.ParseSourceCode([]byte(c.text))
+			if err != nil {
+				o.Fail(nt, fmt.Sprintf("a literal of %d characters is rejected: %.200s", n+1, err.Error()))
+				continue
+			}
+			rn := formula.NewRunner()
+			var v interface{}
+			pan, msg := protect(func() { v, err = rn.Resolve(context.Background(), src.Expression) })
+			if pan || err != nil || v != true {
+				o.Fail(nt, fmt.Sprintf("a literal of %d characters (%s): %v %v %.200s", n+1, c.what, v, err, msg))
+			}
+		}
 	}
 	digits := func(n int, sep bool) string {
 		var sb strings.Builder
